@@ -11,6 +11,13 @@ CLAIMS = {
         note="Trusted: symx executor, z3, go/token.Token.String executed from SSA after running go/token's initialiser. Floats are outside. "
              "Sampled paths are re-run natively (go test -overlay) and must observe the same values.",
     ),
+    "C12": dict(
+        text="Within the bounds (<=3 include x <=3 exclude symbolic prefixes, symbolic package path, symbolic comment texts/positions) the solver shows that IsPkgInScope "
+             "equals (some include prefix matches) and not (some exclude prefix matches), that config.run turns an empty -include-pkgs into 'everything', and that IsFileInScope "
+             "looks only at comment groups before the package clause with the templ marker overriding exclude docstrings.",
+        note="Partial: the clause 'an out-of-scope package publishes no facts' is checked per analyzer entry (K3) where registered; per-file filtering inside whole-package AST walks is outside. "
+             "Stubs: types.NewPackage/(*types.Package).Path (symbolic path), (*ast.CommentGroup).Text (single-line contract, validated natively on samples).",
+    ),
 }
 
 # reasons for every property not (yet) claimed
@@ -19,5 +26,5 @@ NOT_APPLICABLE = {
     "C16": "The quantifier is goroutine interleavings over the whole analysis heap; symx has no thread model and no installed solver-based engine explores Go schedules.",
     "C18": "Everything the property depends on is environment (process cwd captured at init, filepath.Rel, driver cwd); after stubbing those by contract the residual repo code is a one-line wrapper.",
 }
-for _p in ["C02", "C03", "C04", "C05", "C06", "C07", "C08", "C09", "C10", "C11", "C12", "C13", "C14", "C15", "C17", "C20"]:
+for _p in ["C02", "C03", "C04", "C05", "C06", "C07", "C08", "C09", "C10", "C11", "C13", "C14", "C15", "C17", "C20"]:
     NOT_APPLICABLE.setdefault(_p, "kernel check not yet registered (in progress; see DESIGN.md section 4)")
